@@ -28,7 +28,7 @@ class AbsMethod:
     def __init__(self, recv, tyname, name): self.recv = recv; self.tyname = tyname; self.name = name
 
 BUILTIN_EXC = set(S._BUILTIN_BASES) | {"BaseException"}
-BUILTINS = {"eval", "hasattr", "getattr", "iter", "print", "float", "len", "int", "str", "isinstance", "enumerate", "range", "zip", "dict", "tuple", "list", "ord", "chr", "repr", "any", "all", "sum", "max", "min", "sorted", "set", "type", "next", "super", "abs", "bool", "bytes", "bytearray"}
+BUILTINS = {"eval", "hasattr", "getattr", "iter", "print", "float", "len", "int", "str", "isinstance", "enumerate", "range", "zip", "dict", "tuple", "list", "ord", "chr", "repr", "any", "all", "sum", "max", "min", "sorted", "set", "type", "next", "super", "abs", "bool", "bytes", "bytearray", "compile", "open"}
 
 repr_str = z3.Function("repr_str", z3.StringSort(), z3.StringSort())
 
@@ -81,6 +81,8 @@ class Exec:
 
     def fork(self, st, cond):
         """yield (state, bool) for feasible sides of cond."""
+        if isinstance(cond, Ref) and ("reftruth:" + cond.cls) in self.contracts:      # truthiness of a modelled container object (e.g. a set the contract keeps abstract)
+            cond = self.contracts["reftruth:" + cond.cls](self, st, cond)
         c = self.truth(cond)
         if not isinstance(c, Sym):
             yield st, bool(c); return
